@@ -36,17 +36,18 @@ const DB, RP = "db0", "rp0"
 
 // TagKeys is the tag vocabulary of the generators (a read of the tagless series must exclude the others).
 var TagKeys = []string{"host"}
+
 const ShardID = 1
 
 type noPlanner struct{}
 
-func (noPlanner) Plan(time.Time) []tsm1.CompactionGroup  { return nil }
-func (noPlanner) PlanLevel(int) []tsm1.CompactionGroup   { return nil }
-func (noPlanner) PlanOptimize() []tsm1.CompactionGroup   { return nil }
-func (noPlanner) Release([]tsm1.CompactionGroup)         {}
-func (noPlanner) FullyCompacted() bool                   { return true }
-func (noPlanner) ForceFull()                             {}
-func (noPlanner) SetFileStore(*tsm1.FileStore)           {}
+func (noPlanner) Plan(time.Time) []tsm1.CompactionGroup { return nil }
+func (noPlanner) PlanLevel(int) []tsm1.CompactionGroup  { return nil }
+func (noPlanner) PlanOptimize() []tsm1.CompactionGroup  { return nil }
+func (noPlanner) Release([]tsm1.CompactionGroup)        {}
+func (noPlanner) FullyCompacted() bool                  { return true }
+func (noPlanner) ForceFull()                            {}
+func (noPlanner) SetFileStore(*tsm1.FileStore)          {}
 
 func WorkDir(sub string) string {
 	d := os.Getenv("VERIF_WORK")
